@@ -14,6 +14,8 @@ of the same index is still in progress:
   st5  X allocated (A,0),(A,1); X aborted (A,0); Y allocated (A,0) anew (UY)
   st6  X allocated (A,0), 29 min later (A,1); 2 min later (A,0) timed out; Y allocated (A,0) anew
   st7  X allocated (A,0),(A,1) and completed (A,0); Y allocated {0 (already there), 2}
+and one root with the SAME share numbers in progress under two storage indexes:
+  st8  X allocated (A,0),(A,1) (UX); Y allocated (Z,0),(Z,1),(Z,2) (UY)
 
 From every root, EVERY request of a fixed finite alphabet is issued:
   every route of HTTPServer (taken from the Klein url map and compared with the table below)
@@ -96,7 +98,7 @@ ROUTE = {r[0]: r for r in ROUTES}
 METHODS = ["GET", "HEAD", "POST", "PUT", "PATCH", "DELETE"]
 AUTHS = ["absent", "empty", "wrong", "scheme", "nonutf8", "prefix", "suffix", "swapcase", "lower", "right"]
 SIZE = 8
-NSTATES = 8
+NSTATES = 9
 
 
 def check_route_table():
@@ -424,6 +426,12 @@ class Env(object):
             r = n.wait(im.create(k.A, {0, 2}, SIZE, k.UY, k.RY, k.CY))
             assert r.already_have == {0} and r.allocated == {2}, r
             self.owners = {("A", 1): X, ("A", 2): Y}
+        if state == 8:      # r9: uploads of the SAME share numbers in progress under two storage indexes, by two clients
+            r = n.wait(im.create(k.A, {0, 1}, SIZE, k.UX, k.RX, k.CX))
+            assert r.allocated == {0, 1}, r
+            r = n.wait(im.create(k.Z, {0, 1, 2}, SIZE, k.UY, k.RY, k.CY))
+            assert r.allocated == {0, 1, 2}, r
+            self.owners = {("A", 0): X, ("A", 1): X, ("Z", 0): Y, ("Z", 1): Y, ("Z", 2): Y}
         if base >= 4:
             r = n.wait(mu.read_test_write_chunks(
                 k.M, k.W, k.RX, k.CX,
